@@ -24,7 +24,7 @@ SELF = {'self.exposure_time': 't', 'self.dark_current': 'dc', 'self.dcnu': 'dcnu
 def _strip(e):
     """drop shape-only wrappers: x.ravel(), np.ravel(x)"""
     while True:
-        if isinstance(e, ast.Call) and isinstance(e.func, ast.Attribute) and e.func.attr in ('ravel',) and not e.args:
+        if isinstance(e, ast.Call) and isinstance(e.func, ast.Attribute) and e.func.attr in ('ravel',) and not e.args and not e.keywords:
             e = e.func.value
         elif isinstance(e, ast.Call) and ast.unparse(e.func) in ('np.ravel',) and len(e.args) == 1 and not e.keywords:
             e = e.args[0]
@@ -212,6 +212,26 @@ def generate(repo):
             return None
         return False
     g.fact('exposeShapeIsFramesByImage', 'prysm/detector.py:Detector.expose', expose_shape)
+
+    def flatten_order():
+        """every flatten / reshape of expose works in C (row-major) order, so that pixel k of the flat vector is pixel k of
+        the reshaped result whatever the memory layout of the input"""
+        fn = get_def(dt, 'Detector.expose')
+        ok = True
+        for c in ast.walk(fn):
+            if isinstance(c, ast.Call):
+                name = c.func.attr if isinstance(c.func, ast.Attribute) else ast.unparse(c.func)
+                if name in ('ravel', 'flatten', 'reshape'):
+                    orders = [kw.value for kw in c.keywords if kw.arg == 'order']
+                    if name in ('ravel', 'flatten') and len(c.args) >= (2 if ast.unparse(c.func) == 'np.ravel' else 1):
+                        orders.append(c.args[-1])
+                    for o in orders:
+                        if not (isinstance(o, ast.Constant) and isinstance(o.value, str)):
+                            return None
+                        if o.value.upper() != 'C':
+                            ok = False
+        return ok
+    g.fact('exposeFlattensInCOrder', 'prysm/detector.py:Detector.expose', flatten_order)
 
     # ------------------------------------------------------------------ bindown / tile
     def bindown():
